@@ -190,6 +190,8 @@ SHAPES = [
           [(("inner", "x"), []), (("inner", "dc", "x"), [])], whole=("inner",)),
 ]
 
+OPTIONAL_LEAVES = {"y", "opt", "n", "q", "p", "s", "top", "z", "v", "fb"}  # have defaults wherever they occur
+
 # foreign values: (name, value).  The empty-mapping values form their own defect class (see keys below).
 FVALS = [("int", 1), ("map", {"k": 1}), ("null", None), ("list", [1]), ("str", "v"), ("emptymap", {}), ("nestedempty", {"k": {}})]
 
@@ -583,14 +585,11 @@ def work(job):
                 vname, fval = rng.choice(FVALS[:5])
                 name = rng.choice([FK, FK.upper(), "_" + FK, FK + "-x", FK + " y", "0" + FK])
                 get_at(tree, pos)[name] = copy.deepcopy(fval)
-                # drop some NON-required optional leaves elsewhere (the tree stays valid apart from the foreign key)
-                reqs = {p for p, _ in shape.required + shape.soft} | {c for _, cs in shape.required for c in cs}
+                # drop some optional leaves elsewhere (keys that have a default in every class/parser here): the tree stays valid
                 for node_path in list(dict_nodes(tree)):
                     node = get_at(tree, node_path)
                     for k in list(node):
-                        leaf = node_path + (k,)
-                        if (k != name and not isinstance(node[k], (dict, list)) and leaf not in reqs and k not in ("class_path", "subcommand")
-                                and len(node) > 2 and rng.random() < 0.3):
+                        if k in OPTIONAL_LEAVES and not isinstance(node[k], (dict, list)) and len(node) > 2 and rng.random() < 0.3:
                             del node[k]
                 ch = rng.choice([c for c in live if c not in ("envvars", "environ", "argv", "argvjson")])
                 r = call(shape, ch, tree, tmp)
